@@ -1,8 +1,27 @@
 ---- MODULE Gen_MPT ----
 EXTENDS MC_MPT, Json
-CONSTANT Depth
+CONSTANTS Depth,
+          InitFlushed, \* BOOLEAN: slot 1 starts as a flushed snapshot of the initial contents
+          InitArr     \* contents the trie starts with (values aligned with KeyList; all 0 = empty): directed generators start
+                      \* from a populated trie so that short histories reach flushed / reloaded / cache-cleared structures
 \* a behaviour travels with the key universe it is about; observations are rendered at print time
 Emit == (Len(hist) = Depth) =>
-          PrintT(<<"B", ToJson([w |-> W, keys |-> KeyList, prefixes |-> PrefixList,
+          PrintT(<<"B", ToJson([w |-> W, keys |-> KeyList, prefixes |-> PrefixList, init |-> InitArr, initfl |-> InitFlushed, vlen |-> VLen,
                                 steps |-> [i \in 1..Len(hist) |-> Render(hist[i])]])>>)
+GInit == /\ kv = [k \in Keys |-> InitArr[KeyIdx(k)]]
+         /\ trie = Canon(PairsOf([k \in Keys |-> InitArr[KeyIdx(k)]]))
+         /\ snaps = [i \in 1..MaxSnaps |->
+                      IF InitFlushed /\ i = 1
+                      THEN [kv |-> [k \in Keys |-> InitArr[KeyIdx(k)]], trie |-> Canon(PairsOf([k \in Keys |-> InitArr[KeyIdx(k)]])), fl |-> TRUE]
+                      ELSE [kv |-> EmptyMap, trie |-> Nil, fl |-> FALSE]]
+         /\ nops = 0 /\ hist = <<>>
+\* directed alphabet: mutations (also the ones that change nothing: same value, absent key) and the persistence calls on one slot
+DirNext == \/ \E k \in Keys, v \in Vals : Can /\ Set(k, v)
+           \/ \E k \in Keys : Can /\ Del(k)
+           \/ Can /\ Snap(1)
+           \/ Can /\ Flush(1)
+           \/ Can /\ Reload(1, 1)
+           \/ Can /\ ClearCache(0)
+IA0 == [i \in 1..Len(KeyList) |-> 0]
+IA4 == <<0, 2, 2, 2>>     \* 40-byte values: every node is stored by hash
 ====
